@@ -7,7 +7,7 @@ use cteepbd::{AsCtePlain, AsCteXml};
 use serde::{Deserialize, Serialize};
 use serde_json::{json, Value};
 
-use crate::cmp::{Scale, C_ABS, EPS};
+use crate::cmp::{Scale, EPS};
 use crate::engine::{Ctx, Exec, Property, Tier, Violation};
 use crate::entropy::{guard, in_thread};
 use crate::faults::Blob;
@@ -770,7 +770,7 @@ impl Property for C17 {
     fn runs(&self, tier: Tier) -> u64 {
         match tier {
             Tier::Quick => 40_000,
-            Tier::Thorough => 2_000_000,
+            Tier::Thorough => 600_000,
         }
     }
 
@@ -869,7 +869,7 @@ impl Property for C17 {
             let (s0, r0) = &oks[0];
             let f = oks.iter().map(|(_, r)| r.max_factor).fold(1.0f64, f64::max);
             let area = if sc.area > 0.0 { sc.area } else { 1.0 };
-            let noise = C_ABS * EPS * sc.e_an.max(sc.n_an) * f;
+            let noise = sc.c_abs() * EPS * sc.e_an.max(sc.n_an) * f;
             for (si, ri) in oks.iter().skip(1) {
                 // ratios may move more than one digit only when their denominator is rounding noise: exclude those lines
                 let den = r0.json.pointer("/balance/we/b/ren").and_then(|v| v.as_f64()).unwrap_or(0.0)
